@@ -30,6 +30,15 @@ def scenarios(tier):
             for pc in ((128,) if tier == 'quick' and n not in (0, 1025) else (128, 64, 32, 16)):
                 for se in ((False,) if (tier == 'quick' and si) else (False, True)):
                     out.append({'length': n, 'schedule': s, 'page_count': pc, 'start_error': se, 'kind': 'ok'})
+    # firmware contents: blank (0xff) pages, an all-blank image, zeros, a blank tail (the flash holds an older image: 0x3c everywhere)
+    def pat(n):
+        return bytes((i * 7 + 3) & 0xff for i in range(n))
+    contents = {'blank-page-1': pat(1024) + b'\xff' * 1024 + pat(1124), 'all-blank-1024': b'\xff' * 1024, 'blank-page-0': b'\xff' * 1024 + pat(1024),
+                'all-zero': bytes(2500), 'blank-tail': pat(1024) + b'\xff' * 700, 'all-blank-3000': b'\xff' * 3000,
+                'blank-pages-1-2': pat(1024) + b'\xff' * 2048 + pat(5)}
+    for name, fw in contents.items():
+        for pc in ((128,) if tier == 'quick' else (128, 16)):
+            out.append({'length': len(fw), 'firmware_hex': fw.hex(), 'content': name, 'schedule': {}, 'page_count': pc, 'start_error': False, 'kind': 'ok'})
     # sizes around the flash limit of each variant
     for pc in (16, 32, 64, 128):
         for d in ((-1, 0, 1) if tier == 'quick' else (-1025, -1024, -1, 0, 1, 1024, 1025, 1024 * pc)):
@@ -76,16 +85,18 @@ def judge(sc, r):
         f.append(('C18', 'run:failed', '%s: a normal run failed: exit %r %s %s' % (desc, r['exit'], r.get('exc'), r.get('exit_msg'))))
         return f
     if not r.get('flash_ok'):
-        f.append(('C18', 'flash:differs', '%s: flash differs from the padded firmware (extra addresses %r, erased %r)' % (desc, r.get('flash_extra'), r.get('erased', [])[:3])))
+        f.append(('C18', 'flash:differs', '%s%s: flash differs from the padded firmware (first at %s, extra addresses %r, erased %r)' % (desc, (' content=' + sc['content']) if sc.get('content') else '', r.get('flash_first_diff'), r.get('flash_extra'), r.get('erased', [])[:3])))
     if r.get('violations'):
         f.append(('C18', 'protocol:busy', '%s: %s' % (desc, r['violations'][0])))
     want_sleeps = [ms / 1000 for ms in r.get('polls_requested', [])]
     if r.get('sleeps') != want_sleeps:
         f.append(('C18', 'poll-delay', '%s: poll delays waited %r, requested %r' % (desc, r.get('sleeps')[:6], want_sleeps[:6])))
     pages = r.get('pages', 0)
-    if sorted(r.get('erased', [])) != [0x08000000 + 1024 * i for i in range(pages)]:
-        f.append(('C18', 'erase-set', '%s: erased pages %r' % (desc, r.get('erased')[:5])))
-    if [w[0] for w in r.get('written', [])] != [0x08000000 + 1024 * i for i in range(pages)] or any(w[1] != 1024 for w in r.get('written', [])):
+    image_pages = {0x08000000 + 1024 * i for i in range(pages)}
+    # "no other page was erased or written" (the property does not demand that a page whose erased state already equals the image is written)
+    if not set(r.get('erased', [])) <= image_pages:
+        f.append(('C18', 'erase-set', '%s: pages outside the image erased: %r' % (desc, sorted(set(r.get('erased', [])) - image_pages)[:5])))
+    if not {w[0] for w in r.get('written', [])} <= image_pages or any(w[1] != 1024 for w in r.get('written', [])):
         f.append(('C18', 'write-set', '%s: written chunks %r' % (desc, r.get('written')[:5])))
     return f
 
